@@ -11,7 +11,7 @@ PERIODS = [1, 2, 3]
 N_SCRIPTS = 4 ** 4  # all scripts of 4 calls over {improved?} x {stop?}
 N_EXH = N_SCRIPTS * len(PERIODS)
 N_EXH_QUICK = N_EXH  # the exhaustive part runs in both tiers
-TIERS = {"quick": N_EXH + 180, "thorough": N_EXH + 6000}
+TIERS = {"quick": N_EXH + 180, "thorough": N_EXH + 3000}
 
 RULE = (
     "runs 0..%d enumerate exhaustively every script of 4 validation outcomes over {improved?} x {stop?} (256) for the periods "
